@@ -431,7 +431,10 @@ fn gen_doc(rng: &mut Rng) -> (String, String) {
             let depth = *rng.pick(&[50usize, 130, 200, 300]);
             (format!("vdeep:{}:{depth}", rng.pick(&["container", "flex", "tag", "text", "array"])), String::new())
         }
-        2 => (kind.to_string(), gen_any_j(rng, 3).text()),
+        2 => {
+            let j = gen_any_j(rng, 3);
+            (format!("{kind}{}", if j.has_repeated_key() { "+t" } else { "" }), j.text())
+        }
         n => {
             let mut j = match kind {
                 "image" => gen_image_j(rng),
@@ -444,6 +447,7 @@ fn gen_doc(rng: &mut Rng) -> (String, String) {
                     mutate_j(rng, &mut j);
                 }
             }
+            let repeated = j.has_repeated_key();
             let mut t = j.text();
             if n == 7 && !tidy {
                 // damaged syntax
@@ -452,20 +456,32 @@ fn gen_doc(rng: &mut Rng) -> (String, String) {
                     t.truncate(cut);
                 }
             }
-            (kind.to_string(), t)
+            (format!("{kind}{}", if repeated { "+t" } else { "" }), t)
         }
     }
 }
 
-fn corner_docs() -> Vec<(String, String)> {
+fn corner_docs(thorough: bool) -> Vec<(String, String)> {
     let v = |k: &str, t: &str| (k.to_string(), t.to_string());
-    vec![
+    // nesting far beyond what the text parser admits, handed over as serde_json::Value.  Located limits (8 MB
+    // stack, 4 GB address space): flex about 3300 levels (memory: every level copies its subtree), container / tag
+    // about 4100, text about 10600 (stack); serde_json's own clone + drop of such a value overflows the stack at
+    // about 7600 flex levels.  Tested bound: the depths below.
+    let (dv, dt) = if thorough { (1000, 4000) } else { (600, 2000) };
+    let mut deep = vec![
+        v(&format!("vdeep:container:{dv}"), ""),
+        v(&format!("vdeep:flex:{dv}"), ""),
+        v(&format!("vdeep:tag:{dv}"), ""),
+        v(&format!("vdeep:text:{dt}"), ""),
+        v(&format!("vdeep:array:{dt}"), ""),
+    ];
+    let mut docs = vec![
         v("image", r#"{"size":[4294967296,4294967296],"channels":4,"data":""}"#),
         v("image", r#"{"size":[1099511627776,1],"channels":4,"data":"AAAA"}"#),
         v("image", r#"{"size":[1048576,1048576],"channels":1,"data":"AAAA"}"#),
         v("image", r#"{"size":[3,6148914691236517206],"channels":3,"data":"AQI="}"#),
         v("image", r#"{"size":[18446744073709551615,18446744073709551615],"data":""}"#),
-        v("image", r#"{"size":[0,0],"data":"","data":"","size":[1,1],"channels":1,"data":"AA=="}"#),
+        v("image+t", r#"{"size":[0,0],"data":"","data":"","size":[1,1],"channels":1,"data":"AA=="}"#),
         v("image", r#"{"channels":2,"size":[1,1],"data":"AAA="}"#),
         v("image", r#"{"size":[4294967296,0],"channels":1,"data":""}"#),
         v("image", r#"{"size":[9223372036854775808,0],"channels":1,"data":""}"#),
@@ -494,7 +510,7 @@ fn corner_docs() -> Vec<(String, String)> {
         v("view", "{\"type\":\"text\",\"text\":\"a\u{0}b\"}"),
         v("view", ""),
         v("view", "nul"),
-        v("view", "{\"type\":\"text\",\"type\":\"flex\"}"),
+        v("view+t", "{\"type\":\"text\",\"type\":\"flex\"}"),
         v("imgrt:0:0", ""),
         v("imgrt:0:18446744073709551615", ""),
         v("imgrt:4294967296:0", ""),
@@ -506,7 +522,9 @@ fn corner_docs() -> Vec<(String, String)> {
         v("vdeep:container:300", ""),
         v("vdeep:flex:300", ""),
         v("vdeep:text:300", ""),
-    ]
+    ];
+    docs.append(&mut deep);
+    docs
 }
 
 // ---------------------------------------------------------------------------------------------
@@ -635,6 +653,17 @@ fn handle_doc(kind: &str, text: &str) -> String {
             Err(e) => panic!("round trip failed: {:?} -> {js} -> {e}", img.size()),
         };
     }
+    if let Some(rest) = kind.strip_prefix("vbase:") {
+        // baseline for the nesting bound: only build, clone and drop the nested value (serde_json's own recursion)
+        let mut p = rest.split(':');
+        let what = p.next().unwrap_or("container");
+        let depth: usize = p.next().and_then(|d| d.parse().ok()).unwrap_or(100);
+        let (_, v) = nested_value(what, depth);
+        let c = v.clone();
+        drop(v);
+        drop(c);
+        return "ok:base".to_string();
+    }
     if let Some(rest) = kind.strip_prefix("vdeep:") {
         let mut p = rest.split(':');
         let what = p.next().unwrap_or("container");
@@ -657,7 +686,12 @@ fn handle_doc(kind: &str, text: &str) -> String {
         return r;
     }
     // half of the time through the text parser directly, otherwise via serde_json::Value (collapses repeated keys)
-    let via_value = text.len() % 2 == 1;
+    // documents that repeat a key (kind suffix `+t`) always take the text path
+    let (kind, force_text) = match kind.strip_suffix("+t") {
+        Some(k) => (k, true),
+        None => (kind, false),
+    };
+    let via_value = !force_text && text.len() % 2 == 1;
     macro_rules! de {
         ($t:ty) => {{
             if via_value {
@@ -818,43 +852,78 @@ fn judge_docs(ctx: &mut Ctx, workdir: &std::path::Path, docs: &[(String, String)
     let results = run_children(workdir, docs, doc_secs);
     for ((kind, text), res) in docs.iter().zip(results.iter()) {
         let input = json!({"kind": "doc", "doc_kind": kind, "doc": text});
-        let base = kind.split(':').next().unwrap_or("");
-        match res {
-            DocRes::Done(line) => {
-                let mut parts = line.splitn(2, ' ');
-                let head = parts.next().unwrap_or("");
-                let tail = parts.next().unwrap_or("");
-                if head == "panic" && base == "imgrt" {
-                    ctx.out.fail("Image without pixels does not survive the round trip", input, json!("the same size back"), json!(tail));
-                    ctx.out.hist("doc:imgrt:failed");
-                } else if head == "panic" {
-                    ctx.out.fail("deserialisation (or layout / rendering of the deserialised value) panics", input, json!("Ok or Err"), json!(format!("panic: {tail}")));
-                    ctx.out.hist(&format!("doc:{base}:panic"));
-                } else {
-                    let max_req: usize = tail.parse().unwrap_or(0);
-                    if max_req > ALLOC_CAP {
-                        ctx.out.fail("a small document makes deserialisation request a huge allocation", input, json!(format!("<= {ALLOC_CAP} bytes")), json!(max_req));
-                    }
-                    ctx.out.hist(&format!("doc:{base}:{}", if head.starts_with("ok") { "deserialised+rendered" } else { "rejected" }));
-                    if head.starts_with("ok") && ctx.out.evaluations % 1499 == 0 {
-                        ctx.out.sample(json!({"kind": "doc", "doc_kind": kind, "doc": text.chars().take(300).collect::<String>(), "result": head}));
-                    }
-                }
-                ctx.out.case(&format!("doc {kind} {text}"), head.starts_with("ok"));
-            }
+        let base = kind.split([':', '+']).next().unwrap_or("").to_string();
+        // a child that died in a batch is blamed on the document only if it dies on the document alone too
+        let alone;
+        let res = match res {
             DocRes::Killed(how) => {
-                // confirm on the single document
-                let alone = run_children(workdir, &[(kind.clone(), text.clone())], doc_secs);
-                let confirmed = matches!(alone.first(), Some(DocRes::Killed(_)));
+                alone = run_children(workdir, &[(kind.clone(), text.clone())], doc_secs);
+                match alone.first() {
+                    Some(DocRes::Killed(how2)) => {
+                        ctx.out.fail(
+                            "deserialisation does not return: the process aborts, is killed or hangs",
+                            input,
+                            json!("Ok or Err"),
+                            json!(format!("in a batch: {how}; alone: {how2}")),
+                        );
+                        ctx.out.hist(&format!("doc:{base}:abnormal-exit"));
+                        ctx.out.case(&format!("doc {kind} {text}"), true);
+                        continue;
+                    }
+                    Some(done) => {
+                        ctx.inconclusive_kills += 1;
+                        ctx.out.hist("doc:killed-in-batch-but-answers-alone(inconclusive)");
+                        done
+                    }
+                    None => continue,
+                }
+            }
+            done => done,
+        };
+        let DocRes::Done(line) = res else { continue };
+        let mut parts = line.splitn(2, ' ');
+        let head = parts.next().unwrap_or("");
+        let tail = parts.next().unwrap_or("");
+        if head == "panic" && base == "imgrt" {
+            ctx.out.fail("Image without pixels does not survive the round trip", input, json!("the same size back"), json!(tail));
+            ctx.out.hist("doc:imgrt:failed");
+        } else if head == "panic" {
+            ctx.out.fail("deserialisation (or layout / rendering of the deserialised value) panics", input, json!("Ok or Err"), json!(format!("panic: {tail}")));
+            ctx.out.hist(&format!("doc:{base}:panic"));
+        } else {
+            let max_req: usize = tail.parse().unwrap_or(0);
+            if max_req > ALLOC_CAP {
+                // property-relevant only when the allocation follows a declared size instead of the data present:
+                // the document was rejected anyway, or what was allocated is out of proportion to its own length
+                if head == "err" || !alloc_backed(max_req, text.len()) {
+                    ctx.out.fail(
+                        "deserialisation allocates in proportion to a declared size that the document's data does not back",
+                        input.clone(),
+                        json!(format!("<= {ALLOC_CAP} bytes, or proportional to the {} bytes of the document", text.len())),
+                        json!(max_req),
+                    );
+                } else {
+                    ctx.large_allocations += 1;
+                }
+            }
+            let ok = head.starts_with("ok");
+            let summary = head.strip_prefix("ok:").unwrap_or("");
+            if ok && base != "imgrt" && (summary.contains('l') || summary.contains('r')) {
+                // reading of "can be laid out and rendered": layout and render return Ok, not only "do not panic"
+                ctx.layout_errors += 1;
                 ctx.out.fail(
-                    "deserialisation does not return: the process aborts, is killed or hangs",
-                    input,
-                    json!("Ok or Err"),
-                    json!(format!("{how}; alone: {}", if confirmed { "same" } else { "answers" })),
+                    "a value that deserialises successfully returns an error from layout or render",
+                    input.clone(),
+                    json!("Ok from layout and render under every context and constraint"),
+                    json!(format!("{summary} (l = layout error, r = render error, . = ok; order: 7 constraints with glyphs, 3 without, 3 with zero pixels per cell)")),
                 );
-                ctx.out.hist(&format!("doc:{base}:abnormal-exit"));
-                ctx.out.case(&format!("doc {kind} {text}"), true);
+                ctx.out.hist(&format!("doc:{base}:layout-or-render-error"));
+            }
+            ctx.out.hist(&format!("doc:{base}:{}", if ok { "deserialised+rendered" } else { "rejected" }));
+            if ok && ctx.out.evaluations % 1499 == 0 {
+                ctx.out.sample(json!({"kind": "doc", "doc_kind": kind, "doc": text.chars().take(300).collect::<String>(), "result": head}));
             }
         }
+        ctx.out.case(&format!("doc {kind} {text}"), head.starts_with("ok"));
     }
 }
